@@ -585,6 +585,44 @@ def check_merge(cx: Cx, ob: Ob) -> None:
                 ob.violate(fn.qualname, where(fn, ev.line), f"_merge modifies the incoming record ({show(ev.a)})", detail="store-incoming")
             if ev.a[1] == into and ev.a[2] in LISTS:
                 ob.undecide(f"_merge rebinds into.{ev.a[2]}; set algebra of the new value not analysed")
+    # the whole content of a list of `into` replaced in place (into.xs[:] = f(into.xs)): fine when f only re-orders
+    # (sorted / reversed / list); a replacement that can SHRINK the list takes names away from the record that the
+    # lookup tables (which _index only ever adds to) keep resolving
+    for ev, ctx in s.walk():
+        if ev.kind == "store" and op(ev.a) in ("slice", "item") and op(ev.a[1]) == "attr" and ev.a[1][1] == into and ev.a[1][2] in LISTS and (op(ev.a) == "slice" or op(ev.a[2]) == "slice"):
+            lst_t = ev.a[1]
+            v_ = ev.b
+            inner = v_
+            while op(inner) == "call" and inner[1] in (("builtin", "sorted"), ("builtin", "list"), ("builtin", "reversed")) and inner[2]:
+                inner = inner[2][0]
+            if inner == lst_t:
+                ob.site(f"{where(fn, ev.line)} {fn.qualname}", f"into.{lst_t[2]} re-ordered in place")
+                continue
+            shrinks = False
+            if op(inner) == "call" and op(inner[1]) == "func" and inner[1][1] in cx.model.functions:
+                import ast as _ast
+
+                h_ = cx.model.functions[inner[1][1]]
+                shrinks = any(isinstance(n_, _ast.Attribute) and n_.attr in ("casefold", "lower", "upper", "strip") for n_ in _ast.walk(h_.node)) and any(isinstance(n_, _ast.Call) and isinstance(n_.func, _ast.Attribute) and n_.func.attr in ("setdefault", "add", "fromkeys") or isinstance(n_, (_ast.Dict, _ast.DictComp, _ast.SetComp)) for n_ in _ast.walk(h_.node))
+            base_ = inner[1][1] if op(inner) == "call" and op(inner[1]) == "attr" and inner[1][2] in ("values", "keys") else inner
+            if op(base_) == "new" and base_[1] in ("dict", "set"):
+                for mev, _ in s.mutations_of(base_):
+                    for x in subterms(mev.a if isinstance(mev.a, tuple) else ()):
+                        if op(x) == "call" and op(x[1]) == "attr" and x[1][2] in ("casefold", "lower", "upper", "strip") and not x[2]:
+                            shrinks = True
+            if op(inner) == "call" and inner[1] in (("builtin", "set"), ("builtin", "frozenset")) or (op(inner) == "call" and op(inner[1]) == "attr" and inner[1][1] == ("builtin", "dict") and inner[1][2] == "fromkeys"):
+                ob.site(f"{where(fn, ev.line)} {fn.qualname}", f"into.{lst_t[2]} de-duplicated by exact equality")
+                continue
+            if shrinks:
+                ob.violate(
+                    fn.qualname,
+                    where(fn, ev.line),
+                    f"_merge replaces the content of into.{lst_t[2]} by `{show(v_)[:50]}`, which keeps one of several entries that are equal after a string transformation (case folding ...): a spelling the record ALREADY had is dropped from it, while the lookup tables (to which _index only adds) keep resolving it - compress(u) gives a CURIE whose expand_all no longer lists u",
+                    witness="record with 'https://identifiers.org/GO:' and '.../go:' as URI-prefix synonyms, then a merge with case_sensitive=False",
+                    detail=f"merge-drops-existing:{lst_t[2]}",
+                )
+            else:
+                ob.undecide(f"_merge replaces the content of into.{lst_t[2]} by `{show(v_)[:50]}`: that nothing the record had is lost is not decided")
     sides = {"prefix_synonyms": CURIE_SIDE, "uri_prefix_synonyms": URI_SIDE}
     added: dict[str, set] = {k: set() for k in sides}
     for ev, ctx in s.walk():
